@@ -15,12 +15,15 @@ func importRules(w *World, r *Report, from propCheck, fromProp, toRule string, k
 	r2 := newReport(fromProp)
 	from(w, r2)
 	for _, o := range r2.Obs {
-		if keep != nil && !keep(o) {
-			continue
-		}
 		construct := o.Key
 		if i := strings.Index(construct, "|"); i >= 0 {
 			construct = construct[i+1:]
+		}
+		// a check that could not resolve its roles produced none of the obligations the filter would have kept: what is
+		// imported from it is undecided as well
+		unresolved := o.Verdict != "discharged" && (construct == "roles" || construct == "anchors")
+		if keep != nil && !keep(o) && !unresolved {
+			continue
 		}
 		r.add(toRule, o.Rule+":"+construct, o.What, o.Site, o.Verdict, o.Detail)
 	}
